@@ -1355,6 +1355,10 @@ class Process(StateMachine, persistence.Savable, metaclass=ProcessStateMachineMe
                 # Terminated while the step was in flight, e.g. failed by a scheduled callback that raised
                 return
 
+            if isinstance(next_state, process_states.Excepted):
+                # The step failed, which takes precedence over a pending pause or kill
+                self._set_interrupt_action(None)
+
             if self._interrupt_action:
                 self._interrupt_action.run(next_state)
             else:
